@@ -812,6 +812,161 @@ fn ball_float<T: Flt>(sub: &mut Sub, cfg: &Config, idx: u64) {
 }
 
 // ---------------------------------------------------------------------------------------
+// integer lattice in floats: exact tangency
+
+/// all primitive-or-not Pythagorean offsets with integer length up to 130: (|a|,|b|,|c|, length)
+fn lattice_offsets() -> &'static Vec<[i64; 4]> {
+    static L: std::sync::OnceLock<Vec<[i64; 4]>> = std::sync::OnceLock::new();
+    L.get_or_init(|| {
+        let mut v = Vec::new();
+        for a in 0..=130i64 {
+            for b in a..=130 {
+                for c in b..=130 {
+                    let s = a * a + b * b + c * c;
+                    let d = (s as f64).sqrt().round() as i64;
+                    if d >= 1 && d <= 130 && d * d == s {
+                        v.push([a, b, c, d]);
+                    }
+                }
+            }
+        }
+        v
+    })
+}
+
+/// Integer-valued scenes (times a power of two) whose centre distance is an integer too: every
+/// input, every intermediate of the textbook formulas (differences, squares, their sum, its exact
+/// square root, the quotient by it on an axis) and every expected result is exactly representable
+/// in the type, so the closed conditions of the property are decided *at* the boundary with no
+/// tolerance: a point on the surface is contained, tangent shapes collide, one grid step beyond
+/// they do not, the segment distance beyond an end point is the integer it is, and for an offset
+/// along a coordinate axis the collision vector leaves the two shapes exactly tangent.
+fn lattice_float<T: Flt>(sub: &mut Sub, cfg: &Config, idx: u64) {
+    let mut rng = Rng::for_case(&format!("lattice_float/{}", T::NAME), cfg.case_seed(), idx);
+    let three_d = idx % 2 == 1;
+    let offs = lattice_offsets();
+    let o = if idx % 3 == 2 {
+        // a third of the cases: offset along one coordinate axis, any integer length
+        let d = rng.range_i64(1, 1000);
+        [0, 0, d, d]
+    } else {
+        loop {
+            let o = *rng.pick(offs);
+            if three_d || o[0] == 0 {
+                break o;
+            }
+        }
+    };
+    // 2-D: the zero component is dropped; random order and signs
+    let mut comp: Vec<i64> = if three_d { vec![o[0], o[1], o[2]] } else { vec![o[1], o[2]] };
+    let n = comp.len();
+    for i in (1..n).rev() {
+        let j = rng.below(i as u64 + 1) as usize;
+        comp.swap(i, j);
+    }
+    for c in comp.iter_mut() {
+        if rng.bool() {
+            *c = -*c;
+        }
+    }
+    while comp.len() < 3 {
+        comp.push(0);
+    }
+    let d = o[3];
+    let unit = 2f64.powi(rng.range_i64(-6, 6) as i32);
+    let kc: Vec<i64> = (0..3).map(|i| if i < n { rng.range_i64(-500, 500) } else { 0 }).collect();
+    let f = |k: i64| T::of(k as f64 * unit);
+    let v2 = |k: &[i64]| Vec2 { x: f(k[0]), y: f(k[1]) };
+    let v3 = |k: &[i64]| Vec3 { x: f(k[0]), y: f(k[1]), z: f(k[2]) };
+    let kp: Vec<i64> = (0..3).map(|i| kc[i] + comp[i]).collect();
+    let k1 = rng.range_i64(0, d);
+    let k2 = d - k1;
+    // radii for the collision vector: overlapping, tangent or apart
+    let (q1, q2) = (rng.range_i64(0, d + 20), rng.range_i64(0, d + 20));
+    let axis_aligned = comp.iter().filter(|c| **c != 0).count() == 1;
+    let detail = format!("{}D integer lattice x {}: centre {:?}, offset {:?} of length {} to the other centre / point {:?}, radii {} + {} (collision vector: {} and {})", n, unit, &kc[..n], &comp[..n], d, &kp[..n], k1, k2, q1, q2);
+    let (contains_api, coll_api, cv_api, seg_api) = if three_d { ("Sphere::contains_point", "Sphere::collides_with_sphere", "Sphere::collision_vector_with_sphere", "LineSegment3::distance_to_point") } else { ("Disk::contains_point", "Disk::collides_with_disk", "Disk::collision_vector_with_disk", "LineSegment2::distance_to_point") };
+    for a in [contains_api, coll_api, cv_api, seg_api] {
+        sub.saw(a);
+    }
+    // (on, inside by one step, outside by one step), (tangent, apart by one step), moved centre offset, segment distance
+    let r: ([bool; 3], [bool; 2], [f64; 3], f64) = call!(sub, cfg, idx, contains_api, T::NAME, detail, {
+        if three_d {
+            let (c, p) = (v3(&kc), v3(&kp));
+            let on = Sphere::<T, T> { center: c, radius: f(d) }.contains_point(p);
+            let inside = Sphere::<T, T> { center: c, radius: f(d + 1) }.contains_point(p);
+            let outside = Sphere::<T, T> { center: c, radius: f(d - 1) }.contains_point(p);
+            let (a, b) = (Sphere::<T, T> { center: c, radius: f(k1) }, Sphere::<T, T> { center: p, radius: f(k2) });
+            let apart = Sphere::<T, T> { center: c, radius: f((k1 - 1).max(0)) }.collides_with_sphere(Sphere::<T, T> { center: p, radius: f(if k1 == 0 { k2 - 1 } else { k2 }) });
+            let w = Sphere::<T, T> { center: c, radius: f(q1) }.collision_vector_with_sphere(Sphere::<T, T> { center: p, radius: f(q2) });
+            let moved = [(p.x + w.x - c.x).f(), (p.y + w.y - c.y).f(), (p.z + w.z - c.z).f()];
+            // a segment that ends at c and runs away from p along the offset's first non-zero axis
+            let ax = comp.iter().position(|x| *x != 0).unwrap();
+            let mut far = kc.clone();
+            far[ax] -= comp[ax].signum() * 7;
+            let sd = LineSegment3 { start: v3(&far), end: c }.distance_to_point(p);
+            ([on, inside, outside], [a.collides_with_sphere(b), apart], moved, sd.f())
+        } else {
+            let (c, p) = (v2(&kc), v2(&kp));
+            let on = Disk::<T, T> { center: c, radius: f(d) }.contains_point(p);
+            let inside = Disk::<T, T> { center: c, radius: f(d + 1) }.contains_point(p);
+            let outside = Disk::<T, T> { center: c, radius: f(d - 1) }.contains_point(p);
+            let (a, b) = (Disk::<T, T> { center: c, radius: f(k1) }, Disk::<T, T> { center: p, radius: f(k2) });
+            let apart = Disk::<T, T> { center: c, radius: f((k1 - 1).max(0)) }.collides_with_disk(Disk::<T, T> { center: p, radius: f(if k1 == 0 { k2 - 1 } else { k2 }) });
+            let w = Disk::<T, T> { center: c, radius: f(q1) }.collision_vector_with_disk(Disk::<T, T> { center: p, radius: f(q2) });
+            let moved = [(p.x + w.x - c.x).f(), (p.y + w.y - c.y).f(), 0.0];
+            let ax = comp.iter().position(|x| *x != 0).unwrap();
+            let mut far = kc.clone();
+            far[ax] -= comp[ax].signum() * 7;
+            let sd = LineSegment2 { start: v2(&far), end: c }.distance_to_point(p);
+            ([on, inside, outside], [a.collides_with_disk(b), apart], moved, sd.f())
+        }
+    });
+    let (cont, coll, moved, sd) = r;
+    let mut h = H64::new();
+    h.s(T::NAME).u(n as u64).f(unit);
+    for x in kc.iter().chain(comp.iter()) {
+        h.i(*x as i128);
+    }
+    h.i(k1 as i128).i(q1 as i128).i(q2 as i128);
+    let mut bad: Option<(&str, &str, String)> = None;
+    if cont != [true, true, false] {
+        bad = Some((contains_api, "closed_ball_membership_at_the_boundary", format!("contains_point with radius (length, length+1, length-1) x unit = {:?}, the distance is exactly the length so the answers are [true, true, false]", cont)));
+    } else if coll != [true, false] {
+        bad = Some((coll_api, "tangent_shapes_collide_and_one_step_apart_do_not", format!("collides (radii summing to the centre distance, to one step less) = {:?}, expected [true, false]", coll)));
+    } else if sd != d as f64 * unit {
+        // the nearest point of that segment is its end point c, so the distance is the lattice length; the
+        // projection parameter clamps to exactly 1 only when the offset is along the segment's axis,
+        // otherwise the foot is c plus rounding: allow 4 ulps there
+        let exact = axis_aligned;
+        if exact || !((sd - d as f64 * unit).abs() <= 4.0 * T::EPS * d as f64 * unit) {
+            bad = Some((seg_api, "distance_beyond_the_end_point", format!("segment ending at the centre, pointing away from the point: distance_to_point = {:?}, the end point is the nearest point at distance {}", sd, d as f64 * unit)));
+        }
+    }
+    if bad.is_none() {
+        let ml = (moved[0] * moved[0] + moved[1] * moved[1] + moved[2] * moved[2]).sqrt();
+        let want = (q1 + q2) as f64 * unit;
+        if axis_aligned {
+            if ml != want {
+                bad = Some((cv_api, "not_exactly_tangent_after_move_along_an_axis", format!("offset along a coordinate axis: after moving the other centre by the collision vector its offset is {:?} of length {:?}, the radii sum to {}", moved, ml, want)));
+            }
+        } else if !((ml - want).abs() <= 16.0 * T::EPS * (want + kc.iter().map(|k| k.abs()).max().unwrap() as f64 * unit)) {
+            bad = Some((cv_api, "not_tangent_after_move", format!("after moving the other centre by the collision vector its offset is {:?} of length {:?}, the radii sum to {}", moved, ml, want)));
+        }
+    }
+    match bad {
+        Some((api, what, msg)) => {
+            let vio = violation(PROP, sub, api, T::NAME, "wrong_value", what, format!("{}: {}", detail, msg), cfg.case_seed(), idx);
+            sub.violated(vio);
+        }
+        None => {
+            sub.sample(|| format!("[{}] {} -> on the surface: contained, tangent: colliding, segment distance {}", T::NAME, detail, sd));
+            sub.held(h.get(), !axis_aligned);
+        }
+    }
+}
+
+// ---------------------------------------------------------------------------------------
 // segments
 
 trait SegQ {
@@ -1572,6 +1727,19 @@ fn main() {
         rep.push(run_cases(&cfg, proto, nf, |s, i| {
             ball_float::<f32>(s, &cfg, i);
             ball_float::<f64>(s, &cfg, i);
+        }));
+    }
+    {
+        let nf = cfg.n(20_000, 600_000);
+        let proto = Sub::new(
+            "lattice_float",
+            "f32/f64 Disk and LineSegment2 (even index) / Sphere and LineSegment3 (odd): integer-valued scenes times a power of two whose centre offset is a Pythagorean pair / triple / quadruple of integer length <= 130 (random order and signs; a third of them along one axis), so that every intermediate of the textbook formulas and every expected result is exact in the type. Decided with NO tolerance: a point on the surface is contained, one step inside is, one step outside is not; radii summing to the centre distance collide, one step less do not; distance_to_point of a segment ending at the centre and pointing away is the integer length; for an offset along a coordinate axis the other centre moved by the collision vector is exactly tangent (general offsets: 16 eps). non-trivial = offset not along an axis",
+        )
+        .with_floor(nf / 4)
+        .require(&["Disk::contains_point", "Sphere::contains_point", "Disk::collides_with_disk", "Sphere::collides_with_sphere", "Disk::collision_vector_with_disk", "Sphere::collision_vector_with_sphere", "LineSegment2::distance_to_point", "LineSegment3::distance_to_point"]);
+        rep.push(run_cases(&cfg, proto, nf, |s, i| {
+            lattice_float::<f32>(s, &cfg, i);
+            lattice_float::<f64>(s, &cfg, i);
         }));
     }
     let ns = cfg.n(10_000, 150_000);
